@@ -814,6 +814,21 @@ def sweep_harness(table, pyname, cname, flags):
             if bad and os.environ.get("VT_DEBUG_NEUTRAL"):
                 sys.stderr.write("NEUTRAL %s %s: %r\n" % (cname, dict(ex.values) if hasattr(ex, "values") else "", bad[:4]))
             ex.check(not bad, "... and reference-neutral apart from what the receiver's record legitimately acquires or releases")
+        if problem is None and flags == "setter" and r == 0 and args[1] is not NULL and isinstance(recv, Struct):
+            # the same value assigned AGAIN (the field already holds it): nothing is acquired, nothing released
+            snap = {f_: v_ for f_, v_ in recv.f.items()}
+            it.st.rc.clear()
+            problem2 = None
+            try:
+                with cenv.python_side_env():
+                    r2 = it.call(cname, args)
+            except MemSafety as e:
+                problem2, r2 = str(e), -1
+            same = all(_same_field(snap.get(f_, NULL), recv.f.get(f_, NULL)) for f_ in set(snap) | set(recv.f) if f_ not in ("pyobj", "pytype"))
+            immortal2 = (None, True, False, NotImplemented, Ellipsis)
+            drift = [(type(o_).__name__, d_) for o_, d_ in it.st.rc.values() if d_ != 0 and not any(o_ is im for im in immortal2)]
+            ex.check(problem2 is None and r2 == 0 and same and not drift,
+                     "assigning a setter the value its field already holds changes nothing and is reference-neutral")
         return {"fn": cname}
     return harness
 
